@@ -14,9 +14,21 @@ _TASKS = None
 _FN = None
 
 
+def _has_hang(r):
+    for v in (r or {}).get('violations', []):
+        if 'hang' in [x for x in v[:2] if isinstance(x, str)]:
+            return True
+    return False
+
+
 def _work(i):
     try:
-        return i, _FN(_TASKS[i]), None
+        r = _FN(_TASKS[i])
+        if _has_hang(r):
+            # a run that exceeded the wall-clock horizon: repeat the whole case once - a real hang is deterministic and
+            # shows again, a machine that was merely overloaded does not produce a verdict
+            r = _FN(_TASKS[i])
+        return i, r, None
     except Exception as e:  # a crash of the checker itself is a machinery error, never a verdict
         import traceback
         return i, None, traceback.format_exc()
